@@ -81,7 +81,7 @@ inductive PRes where
   | rejected (e : ParseErr)
   /-- a panic inside the parser (`C03_string_nopanic`: does not happen) -/
   | parsePanic
-  deriving Inhabited
+  deriving Repr, DecidableEq, Inhabited
 
 namespace PCall
 
@@ -125,6 +125,9 @@ def refused : PRes → Prop
   | .api (.err _) => True
   | .rejected _ => True
   | _ => False
+
+instance decRefused (r : PRes) : Decidable (refused r) := by
+  unfold refused; split <;> infer_instance
 
 end PCall
 
